@@ -191,7 +191,7 @@ def generate(rnd, tier):
             nb = min(nb, 12)
         cfg = {"nb_samples": nb, "bootstrap_method": rnd.choice(["quantile", "bc", "bca"])}
         op = {"op": rnd.choice(["bootstrap_metric", "bootstrap_ci", "bootstrap_ci"]), "metric": metric, "sampler": sampler, "cfg": cfg,
-              "alpha": round(rnd.uniform(0.01, 0.5), 3)}
+              "alpha": round(rnd.uniform(0.01, 0.5), 3) if rnd.random() < 0.85 else rnd.choice([0.5, 0.75, 0.95, 0.001, round(rnd.uniform(0.5, 0.99), 2)])}
         if op["op"] == "bootstrap_ci" and cfg["bootstrap_method"] == "quantile" and rnd.random() < 0.25:
             op["alpha"] = [round(rnd.uniform(0.01, 0.5), 3) for _ in range(rnd.randint(1, 3))]
         if not fault_free and rnd.random() < 0.6:
